@@ -3,6 +3,7 @@ CONSTANTS
   ShtabBreaksDefaults = {"A", "B"}
   ClearOnError = TRUE
   Full = TRUE
+  Help = FALSE
   Emit = TRUE
 INVARIANT Balanced
 INVARIANT FramesExplainCtx
@@ -11,6 +12,8 @@ INVARIANT AlgIsRefOnFresh
 INVARIANT HistoryIndependent
 INVARIANT DeviationShape
 INVARIANT ShtabShape
+INVARIANT HelpSkipShape
+INVARIANT HelpSkipWrittenByHelpOnly
 INVARIANT RepairClears
 INVARIANT PendingIsLocal
 INVARIANT EmitState
